@@ -540,10 +540,11 @@ tx_outs:\n{tx_outs}
             s += tx_in.sequence.serialize()
         else:
             s += int_to_little_endian(input_index, 4)
-        if hash_type & SIGHASH_SINGLE == SIGHASH_SINGLE:
-            s += sha256(self.tx_outs[input_index].serialize())
+        # BIP341 order: sha_annex (input data) comes before sha_single_output
         if tx_in.witness.has_annex():
             s += sha256(encode_varstr(tx_in.witness[-1]))
+        if hash_type & SIGHASH_SINGLE == SIGHASH_SINGLE:
+            s += sha256(self.tx_outs[input_index].serialize())
         if ext_flag == 1:
             tapleaf_hash = tx_in.witness.tap_leaf().hash()
             # extension defined in BIP0342
